@@ -37,7 +37,7 @@ def one(sid):
     shutil.rmtree(d, ignore_errors=True)
     return sid, res
 
-with ThreadPoolExecutor(3) as ex:
+with ThreadPoolExecutor(int(os.environ.get("PROOFSIDE_WORKERS", "3"))) as ex:
     allr = dict(ex.map(one, seeds))
 json.dump(allr, open(os.path.join(OUT, 'summary.json'), 'w'), indent=1)
 for sid in seeds:
